@@ -41,7 +41,7 @@ def layout(seed, k):
 class ApplyHistory(Machine):
     PROPERTY = "C09"
     NAME = "apply_history"
-    BUDGET = {"quick": {"runs": 120000, "wall": 75, "digests": 24, "block": 100},
+    BUDGET = {"quick": {"runs": 80000, "wall": 75, "digests": 24, "block": 100},
               "thorough": {"runs": 600000, "wall": 840, "digests": 128, "block": 400}}
     LEVEL = {"quick": "exploration", "thorough": "exploration"}
     RULE = ("seeded histories of apply calls (arrays, shapes, every batch size from 1 to beyond n) on a pool "
